@@ -27,7 +27,7 @@ ASSUMPTIONS = [
 
 
 def gen_ops_cases(rng, tier, n_quick, n_thorough, refuse_sweep=False, steps=(4, 40)):
-    fam = U.family()
+    fam = U.family_ops()
     n = n_quick if tier == "quick" else n_thorough
     cases = []
     for j in range(n):
@@ -46,7 +46,7 @@ def stale_inner_cases(rng):
     """allowance-scale histories the small random ones cannot reach (D26): get_mut on an element far into a list of
     unsized elements, shrink that list (clear / remove / pop), then grow a PRECEDING sibling by about the whole
     allowance: the list's recorded inner pointer is shifted past the end of the allocation"""
-    fam = U.family()
+    fam = U.family_ops()
     out = []
     for idx, ulist_field, elem in ((7, 1, 1), (15, 1, 1)):
         _, desc, ty = fam[idx]
@@ -77,7 +77,7 @@ def enum_cases(rng, refuse_sweep=False):
     resizing siblings, ops through the wrapper a setter returns, get() on another / a unit variant, element-level switches
     inside a list of enums, and the allowance-scale stale-inner-pointer history of D26 with the list inside an enum.
     With refuse_sweep (C06) every history is also run with growth refused at each step k."""
-    fam = U.family()
+    fam = U.family_ops()
     by = {idx: (idx, desc, ty) for idx, desc, ty in fam}
     if not all(i in by and j in repr(by[i][2]) for i, j in ((22, "'E'"), (23, "'E'"), (24, "'E'"))):
         return []
